@@ -22,7 +22,7 @@ import (
 )
 
 const rule = "cases = (trie-grown route set with random global/per-route ignore/redirect options, request with and without trailing slash, " +
-	"methods GET/POST/CONNECT, plain and percent-encoded last segments, query strings, unclean paths); distinct by (route set, options, request); " +
+	"methods GET/POST/CONNECT, plain and percent-encoded last segments, query strings, unclean paths; a quarter of the cases after delete churn); distinct by (route set, options, request); " +
 	"non-trivial when the reference finds no direct match but the request is within one trailing slash of a registered pattern's language " +
 	"or fox reports a trailing-slash opportunity"
 
@@ -52,7 +52,7 @@ func main() {
 		}
 	}
 	exhaustive(run)
-	sets := run.Pick(4000, 150000)
+	sets := run.Pick(4000, 300000)
 	const per = 50
 	run.Parallel(sets/per, func(batch int) {
 		r := run.Rand(uint64(batch))
